@@ -262,10 +262,14 @@ def rule_atomic_counter(ctx, rid, r):
         ok = isinstance(d.value, ast.Constant) and d.value.value == 1
         ctx.ob(rid, f"{cb.short}/decrement-by-one", ok, loc(cb, d), "decrement by 1" if ok else "decrement is not by 1", norm(d))
     # the test guarding an enqueue compares with zero
+    from ..astq import expand_locals
     for n in cb.own_nodes():
-        if isinstance(n, ast.If) and r.count_name in names_in(n.test):
-            txt = norm(n.test)
-            t_, pol_ = _positive(n.test, True)
+        if not isinstance(n, ast.If):
+            continue
+        test_x = expand_locals(cb, n.test)
+        if r.count_name in names_in(test_x):
+            txt = norm(test_x)
+            t_, pol_ = _positive(test_x, True)
             # accepted: `count == 0` guarding the enqueue in its true branch (or the negation with the enqueue in the else branch),
             # or the truthiness form `not count`
             if isinstance(t_, ast.Compare) and len(t_.ops) == 1 and isinstance(t_.ops[0], ast.Eq) and const(t_.comparators[0]) == 0 \
